@@ -151,7 +151,12 @@ class Module:
 
         # Now `val.name` is set appropriately.
         # Add it to our type-based containers, and return it.
-        return _add(module=self, val=val)
+        try:
+            return _add(module=self, val=val)
+        except BaseException:
+            if name is not None:
+                val.name = None  # A refused attribute keeps the name it had: none
+            raise
 
     def get(self, name: str) -> Optional[ModuleAttr]:
         """Get module-attribute `name`. Returns `None` if not present.
@@ -190,8 +195,12 @@ class Module:
         _assert_module_attr(self, val)
 
         # Checks out! Name `val` and add it to our type-based containers.
-        val.name = key
-        _add(module=self, val=val)
+        prev, val.name = val.name, key
+        try:
+            _add(module=self, val=val)
+        except BaseException:
+            val.name = prev  # A refused attribute keeps the name it had
+            raise
         return None
 
     def __getattr__(self, key: str) -> Any:
